@@ -109,7 +109,31 @@ func harnessOverlay(repo string) (map[string][]byte, map[string]string, error) {
 		}
 		return nil
 	})
-	return ov, real, err
+	if err != nil {
+		return ov, real, err
+	}
+	// the repository's own golden test assets, regenerated from the working tree, for the
+	// translator-validation harness in the balance package
+	adir := filepath.Join(repo, "cmd/hranoprovod-cli/internal/testutils/testAssets")
+	if ents, derr := os.ReadDir(adir); derr == nil {
+		var sb strings.Builder
+		sb.WriteString("package balance\n\nvar hAssets = map[string]string{\n")
+		for _, e := range ents {
+			if e.IsDir() {
+				continue
+			}
+			b, rerr := os.ReadFile(filepath.Join(adir, e.Name()))
+			if rerr != nil {
+				continue
+			}
+			fmt.Fprintf(&sb, "\t%q: %q,\n", e.Name(), string(b))
+		}
+		sb.WriteString("}\n")
+		target := filepath.Join(repo, "cmd/hranoprovod-cli/internal/balance", "zz_verif_assets.go")
+		ov[target] = []byte(sb.String())
+		real[target] = "generated:testAssets"
+	}
+	return ov, real, nil
 }
 
 func packageClause(src []byte) string {
